@@ -333,10 +333,10 @@ func (r *stLimitedReader) Read(p []byte) (int, error) {
 func (r *stLimitedReader) Close() error { return r.inner.Close() }
 
 type stEntry struct {
-	end   int64 // offset just after the entry
-	ns    stNSKey
-	ids   []uint64
-	keys  []string
+	end  int64 // offset just after the entry
+	ns   stNSKey
+	ids  []uint64
+	keys []string
 }
 
 // decodeLog decodes the primary's log file into entries with their end offsets.
@@ -367,14 +367,14 @@ func (r *stRun) decodeLog(path string) ([]stEntry, int64) {
 	return out, int64(len(data))
 }
 
-// waitFor polls until the replica can translate key of ns to id.
+// stWaitFor polls (read-only: reverse translation) until the replica knows id -> key.
 func stWaitFor(rep *pilosa.TranslateFile, ns stNSKey, key string, id uint64) bool {
 	deadline := time.Now().Add(15 * time.Second)
 	for time.Now().Before(deadline) {
-		if ids, err := stTranslate(rep, ns, []string{key}); err == nil && len(ids) == 1 && ids[0] == id {
+		if back, err := stReverse(rep, ns, id); err == nil && back == key {
 			return true
 		}
-		time.Sleep(500 * time.Microsecond)
+		time.Sleep(200 * time.Microsecond)
 	}
 	return false
 }
@@ -406,11 +406,15 @@ func (r *stRun) replicaPhase(primary *pilosa.TranslateFile, m *stTModel) {
 	lastVisible := func(rep *pilosa.TranslateFile, n int) bool {
 		for i := n - 1; i >= 0; i-- {
 			e := entries[i]
-			if len(e.ids) == 0 {
-				continue
+			for j := len(e.ids) - 1; j >= 0; j-- {
+				if e.keys[j] != "" { // entries are applied in order: the last pair visible => all visible
+					ok := stWaitFor(rep, e.ns, e.keys[j], e.ids[j])
+					time.Sleep(time.Millisecond)
+					return ok
+				}
 			}
-			return stWaitFor(rep, e.ns, e.keys[len(e.keys)-1], e.ids[len(e.ids)-1])
 		}
+		time.Sleep(20 * time.Millisecond)
 		return true
 	}
 	var rep *pilosa.TranslateFile
@@ -793,7 +797,11 @@ func (r *stRun) reopen(a *stAStore) {
 			r.t.Fatal(err)
 		}
 	}
-	r.readAll(a)
+	// first reads after a reopen (cold cache for a new object), some followed by a caller-side modification
+	for _, id := range stAttrIDs {
+		r.read(a, id, r.rng.Intn(2) == 0)
+	}
+	r.read(a, 5555, false)
 }
 
 // block model helpers
@@ -1038,7 +1046,7 @@ func TestRcheckStores(t *testing.T) {
 			seed = v
 		}
 	}
-	tseqs, aseqs := 40, 150
+	tseqs, aseqs := 60, 200
 	if os.Getenv("VERIF_TIER") == "thorough" {
 		tseqs, aseqs = 600, 3000
 	}
@@ -1053,6 +1061,7 @@ func TestRcheckStores(t *testing.T) {
 			tseqs, stNamespaces, len(stSpecialKeys), aseqs, stAttrIDs, stAttrKeys, seed)}
 	r := &stRun{t: t, res: res, rng: rand.New(rand.NewSource(seed)), dir: dir}
 	seen := map[string]bool{}
+	start := time.Now()
 	record := func() {
 		key := strings.Join(r.seq, ";")
 		if len(r.seq) > 0 && !seen[key] {
@@ -1071,6 +1080,7 @@ func TestRcheckStores(t *testing.T) {
 		r.translateSequence(5+r.rng.Intn(36), i%4 == 0, true)
 		record()
 	}
+	t.Logf("translate phase done after %v", time.Since(start))
 	srv := test.MustRunCluster(t, 1)
 	defer srv.Close()
 	for i := 0; i < aseqs; i++ {
